@@ -550,11 +550,12 @@ pub fn exec_call(op: &Op, storage: &Path) -> String {
             let r = capi::shorebird_check_for_downloadable_update(c.as_ref().map(|c| c.as_ptr()).unwrap_or(std::ptr::null()));
             if r { "b1".to_string() } else { "b0".to_string() }
         }
-        Op::Update { chan, resp, dl } => {
+        Op::Update { chan, resp, dl, evf } => {
             {
                 let mut st = NET.lock().unwrap();
                 st.resp = resp.clone();
                 st.dl = dl.clone();
+                st.event_results = (0..8).map(|i| (evf >> i) & 1 == 0).collect();
             }
             let c = chan_ptr(chan);
             let r = capi::shorebird_update_with_result(c.as_ref().map(|c| c.as_ptr()).unwrap_or(std::ptr::null()));
@@ -712,11 +713,12 @@ impl Runner {
                 );
                 if r { "b1".to_string() } else { "b0".to_string() }
             }
-            Op::Update { chan, resp, dl } => {
+            Op::Update { chan, resp, dl, evf } => {
                 {
                     let mut st = NET.lock().unwrap();
                     st.resp = resp.clone();
                     st.dl = dl.clone();
+                    st.event_results = (0..8).map(|i| (evf >> i) & 1 == 0).collect();
                 }
                 let c = Self::chan_ptr(chan);
                 let r = capi::shorebird_update_with_result(
